@@ -1,5 +1,8 @@
 use vpcheck::run::{Ctx, Tier};
 
+#[global_allocator]
+static GLOBAL: vpcheck::poison::Poison = vpcheck::poison::Poison;
+
 fn usage() -> ! {
     eprintln!("usage: vpcheck <C01..C19|selftest> [quick|thorough] [--seed N] [--replay FILE]");
     std::process::exit(2)
@@ -24,6 +27,15 @@ fn main() {
             }
         }
     }
+    if prop == "sanitizer-workload" {
+        // sanitizer-workload <prop> <seed> <cases> <nmax> <len>   (allocator stays in pass-through mode)
+        if args.len() < 6 {
+            usage();
+        }
+        let (obs, sum) = vpcheck::sanitizer_workload(&args[1], args[2].parse().unwrap(), args[3].parse().unwrap(), args[4].parse().unwrap(), args[5].parse().unwrap());
+        println!("sanitizer-workload {} {} {:016x}", args[1], obs, sum);
+        return;
+    }
     if prop == "worker" {
         // worker <prop> <stream> <tier> <seed> <start> <step> <end>
         if args.len() < 8 {
@@ -38,6 +50,7 @@ fn main() {
         let f: &vpcheck::procmon::WorkerCase = match (p, stream) {
             ("C08", _) => &vpcheck::props::c08::case,
             ("C12", _) => &vpcheck::props::c12::case,
+            ("C10", "poison") => &vpcheck::props::c10::poison_case,
             _ => usage(),
         };
         vpcheck::procmon::worker_loop(p, stream, seed, start, step, end, f);
@@ -88,7 +101,12 @@ fn main() {
     let ctx = Ctx::new(&prop, tier, seed, replay, level);
     match prop.as_str() {
         "C01" => vpcheck::props::c01::run(&ctx),
+        "C02" => vpcheck::props::c02::run(&ctx),
+        "C03" => vpcheck::props::c03::run(&ctx),
+        "C06" => vpcheck::props::c06::run(&ctx),
+        "C07" => vpcheck::props::c07::run(&ctx),
         "C08" => vpcheck::props::c08::run(&ctx),
+        "C10" => vpcheck::props::c10::run(&ctx),
         "C09" => vpcheck::props::c09::run(&ctx),
         "C12" => vpcheck::props::c12::run(&ctx),
         _ => usage(),
